@@ -25,7 +25,7 @@ func (d *LLDP) Read(b []byte) (n int, err error) {
 		return
 	}
 	n += o
-	if p, err = d.Chassis.Read(b[n:]); p == 0 {
+	if p, err = d.TTL.Read(b[n:]); p == 0 {
 		return
 	}
 	n += p
